@@ -103,6 +103,8 @@ pub fn obj_facts(obj: &ObjSpec, oti: &OtiSpec, spec: &SenderSpec, transfer_len: 
         SourceSpec::ChunkedAt(..) => "chunked_at",
         SourceSpec::File => "file",
         SourceSpec::BufFile => "buffile",
+        SourceSpec::PathRam => "path_ram",
+        SourceSpec::PathNoRam => "path_noram",
     }));
     m
 }
